@@ -1,13 +1,20 @@
 /-
 L9b: two replicas — progress of anti-entropy, bounded rounds, join result (C05).
+The value type carries an ARBITRARY join-semilattice (`[SemilatticeSup V]`; `Merge.joinMax` merges
+with `max = ⊔`); a linear order is the special case `⊔ = max`. The lemmas that hold only for a
+"selective" merge (the result is one of the two inputs: peer-wins, or the max of a linear order) are
+kept in the section `Linear` at the end.
 -/
 import MstVerif.Proofs.Sync
+import MstVerif.Proofs.SyncJoin
 import Mathlib.Order.Basic
 import Mathlib.Order.Lattice
 import Mathlib.Tactic.Order
 
+set_option linter.unusedSectionVars false
+
 namespace Mst
-variable {K V D : Type} [LinearOrder K] [LinearOrder V] [DecidableEq D]
+variable {K V D : Type} [LinearOrder K] [SemilatticeSup V] [DecidableEq V] [DecidableEq D]
 
 /-- The keys on which two stores disagree (missing on one side counts). -/
 def disagreeKeys (a b : List (K × V)) : List K :=
@@ -131,28 +138,6 @@ theorem pullLk_of_eq (m : Merge) (x y : Option V) (h : x = y) : pullLk m x y = x
   | none => rfl
   | some v => cases m <;> simp [pullLk, Merge.apply]
 
-/-- If a fetch changes the receiver's value, the receiver now holds the sender's value. -/
-theorem pullLk_of_ne (m : Merge) (x y : Option V) (h : pullLk m x y ≠ x) :
-    pullLk m x y = y ∧ x ≠ y := by
-  cases y with
-  | none => exact absurd rfl h
-  | some v =>
-    cases x with
-    | none => exact ⟨rfl, by simp⟩
-    | some o =>
-      cases m with
-      | peerWins =>
-        refine ⟨rfl, ?_⟩
-        intro e; apply h; rw [e]; rfl
-      | joinMax =>
-        simp only [pullLk, Merge.apply] at h ⊢
-        by_cases hlt : o < v
-        · simp only [hlt, if_true] at h ⊢
-          refine ⟨trivial, ?_⟩
-          intro e
-          exact h e.symm
-        · simp [hlt] at h
-
 /-- Two different values cannot both be fixed by fetching the other. -/
 theorem pullLk_both_fixed (m : Merge) (x y : Option V) (hne : x ≠ y)
     (h1 : y ≠ none → pullLk m x y = x) (h2 : x ≠ none → pullLk m y x = y) : False := by
@@ -178,11 +163,47 @@ theorem pullLk_both_fixed (m : Merge) (x y : Option V) (hne : x ≠ y)
         exact hov e1.symm
       | joinMax =>
         simp only [pullLk, Merge.apply, Option.some.injEq] at e1 e2
-        by_cases c1 : o < v
-        · rw [if_pos c1] at e1; exact hov e1.symm
-        · by_cases c2 : v < o
-          · rw [if_pos c2] at e2; exact hov e2
-          · exact hov (le_antisymm (not_lt.1 c2) (not_lt.1 c1))
+        -- `o ⊔ v = o` and `v ⊔ o = v`: the two values are equal in ANY join-semilattice
+        exact hov (e1.symm.trans ((sup_comm o v).trans e2))
+
+/-- Both merge rules — the join of ANY join-semilattice and peer-wins — obey the laws the round
+argument (`round_agree`) needs. -/
+theorem pullLk_laws (m : Merge) : MergeLaws (pullLk (V := V) m) where
+  idem x := pullLk_of_eq m x x rfl
+  none_left y := by cases y <;> cases m <;> rfl
+  none_right x := rfl
+  absorb x y hy := by
+    cases y with
+    | none => exact absurd rfl hy
+    | some v =>
+      cases m with
+      | peerWins => cases x <;> rfl
+      | joinMax =>
+        cases x with
+        | none => simp [pullLk, Merge.apply]
+        | some o =>
+          simp only [pullLk, Merge.apply]
+          rw [sup_comm v, sup_right_idem]
+  fixed x y hx hy h := by
+    cases x with
+    | none => exact absurd rfl hx
+    | some p =>
+      cases y with
+      | none => exact absurd rfl hy
+      | some q =>
+        cases m with
+        | peerWins => rfl
+        | joinMax =>
+          simp only [pullLk, Merge.apply, Option.some.injEq] at h ⊢
+          rw [sup_comm]; exact h
+  some_right x y hy := by
+    cases y with
+    | none => exact absurd rfl hy
+    | some v => simp [pullLk]
+  some_left x y hx := by
+    cases y with
+    | none => exact hx
+    | some v => simp [pullLk]
 
 /-- `pull_spec` restated with lookup functions. -/
 theorem pull_lookup (lvl : K → Nat) (hlvl : ∀ k, lvl k < 255) (hc : HashCfg K V D) (m : Merge)
@@ -222,34 +243,21 @@ theorem pull_lookup (lvl : K → Nat) (hlvl : ∀ k, lvl k < 255) (hc : HashCfg 
         exact (lookupKV_eq_some a.store ha.sorted k v).2 hm
       exact hcomp hnc hcov (k, v) hmem hnmem
 
-/-- Effect of one pull on agreement: no new disagreement, and a change of the receiver removes one. -/
-theorem recv_step (m : Merge) (x y x' : List (K × V)) (hx : KSorted x) (hx' : KSorted x')
-    (P : K → Bool)
+/-- Effect of one pull on agreement: no new disagreement (any merge, any join-semilattice). -/
+theorem recv_keep (m : Merge) (x y x' : List (K × V)) (P : K → Bool)
     (h : ∀ k, lookupKV k x' =
       if P k = true then pullLk m (lookupKV k x) (lookupKV k y) else lookupKV k x) :
-    (∀ k, lookupKV k x' ≠ lookupKV k y → lookupKV k x ≠ lookupKV k y) ∧
-    (x' ≠ x → ∃ k0, lookupKV k0 x ≠ lookupKV k0 y ∧ lookupKV k0 x' = lookupKV k0 y) := by
-  constructor
-  · intro k hk e
-    apply hk
-    rw [h k]
-    split
-    · rw [pullLk_of_eq m _ _ e, e]
-    · exact e
-  · intro hne
-    have : ¬ ∀ k, lookupKV k x' = lookupKV k x := fun hall => hne (store_ext x' x hx' hx hall)
-    obtain ⟨k0, hk0⟩ := not_forall.1 this
-    refine ⟨k0, ?_⟩
-    rw [h k0] at hk0 ⊢
-    by_cases hp : P k0 = true
-    · simp only [hp, if_true] at hk0 ⊢
-      obtain ⟨e1, e2⟩ := pullLk_of_ne m _ _ hk0
-      exact ⟨e2, e1⟩
-    · simp [hp] at hk0
+    ∀ k, lookupKV k x' ≠ lookupKV k y → lookupKV k x ≠ lookupKV k y := by
+  intro k hk e
+  apply hk
+  rw [h k]
+  split
+  · rw [pullLk_of_eq m _ _ e, e]
+  · exact e
 
 /-! ### Progress -/
 
-omit [LinearOrder V] in
+omit [SemilatticeSup V] [DecidableEq V] in
 theorem ksorted_head_le (s : List (K × V)) (hs : KSorted s) (h0 : K × V) (hh : s.head? = some h0) :
     h0.1 ∈ s.map Prod.fst ∧ ∀ x ∈ s.map Prod.fst, h0.1 ≤ x := by
   obtain ⟨t, rfl⟩ := List.head?_eq_some_iff.1 hh
@@ -261,7 +269,7 @@ theorem ksorted_head_le (s : List (K × V)) (hs : KSorted s) (h0 : K × V) (hh :
   · exact le_refl _
   · exact le_of_lt (hs.1 x hx)
 
-omit [LinearOrder V] in
+omit [SemilatticeSup V] [DecidableEq V] in
 theorem ksorted_le_last (s : List (K × V)) (hs : KSorted s) (l : K × V) (hl : s.getLast? = some l) :
     l.1 ∈ s.map Prod.fst ∧ ∀ x ∈ s.map Prod.fst, x ≤ l.1 := by
   obtain ⟨t, rfl⟩ := List.getLast?_eq_some_iff.1 hl
@@ -273,6 +281,78 @@ theorem ksorted_le_last (s : List (K × V)) (hs : KSorted s) (l : K × V) (hl : 
   · exact le_of_lt (hs.2.2 x hx l.1 (by simp))
   · simp at hx
     rw [hx]
+
+/-- the lookup function of a sorted store is empty or has a least and a greatest key -/
+theorem bounded_lookup (s : List (K × V)) (hs : KSorted s) : Bounded (fun k => lookupKV k s) := by
+  cases h0 : s.head? with
+  | none =>
+    left
+    intro k
+    rw [List.head?_eq_none_iff] at h0
+    rw [h0]; rfl
+  | some a0 =>
+    cases h1 : s.getLast? with
+    | none =>
+      rw [List.getLast?_eq_none_iff] at h1
+      rw [h1] at h0
+      cases h0
+    | some a1 =>
+      right
+      obtain ⟨m0, l0⟩ := ksorted_head_le s hs a0 h0
+      obtain ⟨m1, l1⟩ := ksorted_le_last s hs a1 h1
+      refine ⟨a0.1, a1.1, (lookupKV_ne_none_iff s _).2 m0, (lookupKV_ne_none_iff s _).2 m1, ?_⟩
+      intro k hk
+      have := (lookupKV_ne_none_iff s k).1 hk
+      exact ⟨l0 k this, l1 k this⟩
+
+theorem coverF_iff (s r : List (K × V)) :
+    CoverF (fun k => lookupKV k s) (fun k => lookupKV k r) ↔ Cover s r := by
+  unfold CoverF Cover
+  constructor
+  · intro h x hx
+    obtain ⟨⟨y, hy, hyx⟩, ⟨z, hz, hxz⟩⟩ := h x ((lookupKV_ne_none_iff r x).2 hx)
+    exact ⟨⟨y, (lookupKV_ne_none_iff s y).1 hy, hyx⟩, ⟨z, (lookupKV_ne_none_iff s z).1 hz, hxz⟩⟩
+  · intro h x hx
+    obtain ⟨⟨y, hy, hyx⟩, ⟨z, hz, hxz⟩⟩ := h x ((lookupKV_ne_none_iff r x).1 hx)
+    exact ⟨⟨y, (lookupKV_ne_none_iff s y).2 hy, hyx⟩, ⟨z, (lookupKV_ne_none_iff s z).2 hz, hxz⟩⟩
+
+/-- `pull_lookup` packaged as the `PullF` record of `Proofs/SyncJoin.lean`. -/
+theorem pull_lookupF (lvl : K → Nat) (hlvl : ∀ k, lvl k < 255) (hc : HashCfg K V D)
+    (hnc : NoCollisions hc) (m : Merge)
+    (a b : Replica K V D) (ha : RInv lvl hc a) (hb : RInv lvl hc b) :
+    ∃ (R : List (DR K)) (a' b' : Replica K V D), pull lvl hc m a b = .ok (a', b') ∧
+      RInv lvl hc a' ∧ RInv lvl hc b' ∧ b'.store = b.store ∧
+      PullF (pullLk m) (fun k => lookupKV k a.store) (fun k => lookupKV k b.store)
+        (fun k => lookupKV k a'.store) (fun k => inRanges R k) := by
+  obtain ⟨R, a', b', hp, ha', hb', hbs, hA', _, hcomp, hhead⟩ := pull_lookup lvl hlvl hc m a b ha hb
+  refine ⟨R, a', b', hp, ha', hb', hbs, hA', ?_, ?_⟩
+  · intro hcov k hkb hne
+    exact hcomp hnc ((coverF_iff _ _).1 hcov) k hkb hne
+  · intro y0 x1 hy0 hmin hlt hx1 hlast
+    have hane : a.store ≠ [] := by
+      intro e
+      rw [e] at hx1
+      exact hx1 rfl
+    have hbne : b.store ≠ [] := by
+      intro e
+      rw [e] at hy0
+      exact hy0 rfl
+    obtain ⟨a0, h1⟩ : ∃ x, a.store.head? = some x := ⟨_, List.head?_eq_some_head hane⟩
+    obtain ⟨a1, h2⟩ : ∃ x, a.store.getLast? = some x := ⟨_, List.getLast?_eq_some_getLast hane⟩
+    obtain ⟨b0, h3⟩ : ∃ x, b.store.head? = some x := ⟨_, List.head?_eq_some_head hbne⟩
+    obtain ⟨b1, h4⟩ : ∃ x, b.store.getLast? = some x := ⟨_, List.getLast?_eq_some_getLast hbne⟩
+    obtain ⟨ma0, la0⟩ := ksorted_head_le a.store ha.sorted a0 h1
+    obtain ⟨ma1, la1⟩ := ksorted_le_last a.store ha.sorted a1 h2
+    obtain ⟨mb0, lb0⟩ := ksorted_head_le b.store hb.sorted b0 h3
+    obtain ⟨mb1, lb1⟩ := ksorted_le_last b.store hb.sorted b1 h4
+    have e0 : b0.1 = y0 :=
+      le_antisymm (lb0 y0 ((lookupKV_ne_none_iff _ _).1 hy0)) (hmin _ ((lookupKV_ne_none_iff _ _).2 mb0))
+    have := hhead a0 a1 b0 b1 h1 h2 h3 h4
+      (by rw [e0]; exact hlt _ ((lookupKV_ne_none_iff _ _).2 ma0))
+      (lt_of_lt_of_le (hlast _ ((lookupKV_ne_none_iff _ _).2 mb1))
+        (la1 x1 ((lookupKV_ne_none_iff _ _).1 hx1)))
+    rw [e0] at this
+    exact this
 
 /-- If the sender's span covers the receiver's, one of the two pulls changes its receiver. -/
 theorem cover_progress (lvl : K → Nat) (hlvl : ∀ k, lvl k < 255) (hc : HashCfg K V D)
@@ -347,7 +427,7 @@ theorem first_progress (lvl : K → Nat) (hlvl : ∀ k, lvl k < 255) (hc : HashC
   | none => exact hkb hv
   | some v => rw [hv] at this; simp [pullLk] at this
 
-omit [LinearOrder V] in
+omit [SemilatticeSup V] [DecidableEq V] in
 theorem cover_nil (s : List (K × V)) : Cover s ([] : List (K × V)) := by
   intro x hx
   simp at hx
@@ -447,9 +527,7 @@ theorem joinO_pull_left (x y : Option V) : joinO (pullLk .joinMax x y) y = joinO
     | none => simp [joinO, pullLk]
     | some v =>
       simp only [joinO, pullLk, Merge.apply]
-      by_cases h : o < v
-      · rw [if_pos h, max_self, max_eq_right (le_of_lt h)]
-      · rw [if_neg h]
+      rw [sup_right_idem]
 
 theorem joinO_pull_right (x y : Option V) : joinO y (pullLk .joinMax x y) = joinO y x := by
   cases x with
@@ -459,11 +537,9 @@ theorem joinO_pull_right (x y : Option V) : joinO y (pullLk .joinMax x y) = join
     | none => simp [joinO, pullLk]
     | some v =>
       simp only [joinO, pullLk, Merge.apply]
-      by_cases h : o < v
-      · rw [if_pos h, max_self, max_eq_left (le_of_lt h)]
-      · rw [if_neg h]
+      rw [sup_comm o v, sup_left_idem]
 
-omit [LinearOrder V] [DecidableEq D] in
+omit [SemilatticeSup V] [DecidableEq V] [DecidableEq D] in
 theorem rootHash_eq_of_store_eq (lvl : K → Nat) (hc : HashCfg K V D) (a b : Replica K V D)
     (ha : RInv lvl hc a) (hb : RInv lvl hc b) (h : a.store = b.store) :
     (a.tree.genRootHash hc).rootHash = (b.tree.genRootHash hc).rootHash := by
@@ -501,38 +577,26 @@ theorem round_spec (lvl : K → Nat) (hlvl : ∀ k, lvl k < 255) (hc : HashCfg K
       simp
     exact ⟨e2, hbs2.trans e1⟩
   · intro hnc hne
-    obtain ⟨s1, c1⟩ := recv_step m b.store a.store b1.store hb.sorted hb1.sorted
-      (fun k => inRanges R1 k) hB1
-    obtain ⟨s2, c2⟩ := recv_step m a.store b1.store a2.store ha.sorted ha2.sorted
-      (fun k => inRanges R2 k) hA2
+    -- every round creates a new agreement (`round_agree`: any join, or peer-wins) and keeps the old ones
+    obtain ⟨R1', b1', a1', hp1', -, -, -, P1⟩ := pull_lookupF lvl hlvl hc hnc m b a hb ha
+    rw [hp1] at hp1'
+    cases hp1'
+    obtain ⟨R2', a2', b2', hp2', -, -, -, P2⟩ := pull_lookupF lvl hlvl hc hnc m a1 b1 ha1 hb1
+    rw [hp2] at hp2'
+    cases hp2'
+    rw [has1] at P2
+    have s1 := recv_keep m b.store a.store b1.store (fun k => inRanges R1 k) hB1
+    have s2 := recv_keep m a.store b1.store a2.store (fun k => inRanges R2 k) hA2
     rw [hbs2]
-    have s1' : ∀ k, lookupKV k a.store ≠ lookupKV k b1.store →
-        lookupKV k a.store ≠ lookupKV k b.store := fun k h => (s1 k h.symm).symm
-    have le1 : disagree a.store b1.store ≤ disagree a.store b.store :=
-      disagree_le_of _ _ _ _ s1'
-    have le2 : disagree a2.store b1.store ≤ disagree a.store b1.store :=
-      disagree_le_of _ _ _ _ s2
-    by_cases hch1 : b1.store = b.store
-    · have hch2 : a2.store ≠ a.store := by
-        rcases pull_progress lvl hlvl hc hnc m a1 b1 ha1 hb1 (by rw [has1, hch1]; exact hne) with
-          ⟨x, y, hp, hx⟩ | ⟨x, y, hp, hx⟩
-        · rw [hp2] at hp
-          simp only [Except.ok.injEq, Prod.mk.injEq] at hp
-          obtain ⟨rfl, rfl⟩ := hp
-          rwa [has1] at hx
-        · exfalso
-          obtain ⟨u, v, u', v', q1, q2, e, _⟩ :=
-            pull_store_congr lvl hlvl hc m b1 a1 b a hb1 ha1 hb ha hch1 has1
-          rw [hp] at q1
-          rw [hp1] at q2
-          simp only [Except.ok.injEq, Prod.mk.injEq] at q1 q2
-          obtain ⟨rfl, rfl⟩ := q1
-          obtain ⟨rfl, rfl⟩ := q2
-          exact hx e
-      obtain ⟨k0, d0, d0'⟩ := c2 hch2
-      exact lt_of_lt_of_le (disagree_lt_of _ _ _ _ k0 s2 d0 d0') le1
-    · obtain ⟨k0, d0, d0'⟩ := c1 hch1
-      exact lt_of_le_of_lt le2 (disagree_lt_of _ _ _ _ k0 s1' d0.symm d0'.symm)
+    have hex : ∃ k, lookupKV k a.store ≠ lookupKV k b.store := by
+      by_contra h
+      exact hne (store_ext _ _ ha.sorted hb.sorted fun k => by
+        by_contra hk
+        exact h ⟨k, hk⟩)
+    obtain ⟨k0, d0, d0'⟩ := round_agree (pullLk_laws m) P1 P2 (bounded_lookup _ ha.sorted)
+      (bounded_lookup _ hb.sorted) (bounded_lookup _ hb1.sorted) hex
+    exact disagree_lt_of a.store b.store a2.store b1.store k0
+      (fun k h => (s1 k (s2 k h).symm).symm) d0 d0'
   · rintro rfl k
     rw [joinLookup_eq, joinLookup_eq, hbs2, hA2 k]
     have h1 : joinO (lookupKV k a.store) (lookupKV k b1.store) =
@@ -587,4 +651,67 @@ theorem sync_quiescent (lvl : K → Nat) (hlvl : ∀ k, lvl k < 255) (hc : HashC
   obtain ⟨a2, b2, hr, _, _, hq, _, _⟩ := round_spec lvl hlvl hc m a b ha hb
   exact ⟨a2, b2, hr, hq heq⟩
 
+end Mst
+
+/-! ### Selective merges: the max of a LINEAR order (and peer-wins)
+
+For a linear order `Merge.joinMax` is the former `if old < new then new else old`, and the merged
+value is always one of the two inputs — so a change of the receiver at a key makes the two replicas
+agree at that key. (Not so for a general join: `x ⊔ y` may differ from both.) -/
+
+namespace Mst
+section Linear
+variable {K V D : Type} [LinearOrder K] [LinearOrder V] [DecidableEq D]
+
+/-- Bridge to the former definition of the model: on a linear order the join merge keeps the larger
+value. -/
+theorem apply_joinMax_linear (o v : V) :
+    Merge.apply .joinMax (some o) v = if o < v then v else o := by
+  simp only [Merge.apply]
+  by_cases h : o < v
+  · rw [if_pos h]; exact max_eq_right (le_of_lt h)
+  · rw [if_neg h]; exact max_eq_left (not_lt.1 h)
+
+/-- If a fetch changes the receiver's value, the receiver now holds the sender's value. -/
+theorem pullLk_of_ne (m : Merge) (x y : Option V) (h : pullLk m x y ≠ x) :
+    pullLk m x y = y ∧ x ≠ y := by
+  cases y with
+  | none => exact absurd rfl h
+  | some v =>
+    cases x with
+    | none => exact ⟨rfl, by simp⟩
+    | some o =>
+      cases m with
+      | peerWins =>
+        refine ⟨rfl, ?_⟩
+        intro e; apply h; rw [e]; rfl
+      | joinMax =>
+        simp only [pullLk, apply_joinMax_linear] at h ⊢
+        by_cases hlt : o < v
+        · simp only [hlt, if_true] at h ⊢
+          refine ⟨trivial, ?_⟩
+          intro e
+          exact h e.symm
+        · simp [hlt] at h
+
+/-- Effect of one pull on agreement: no new disagreement, and a change of the receiver removes one. -/
+theorem recv_step (m : Merge) (x y x' : List (K × V)) (hx : KSorted x) (hx' : KSorted x')
+    (P : K → Bool)
+    (h : ∀ k, lookupKV k x' =
+      if P k = true then pullLk m (lookupKV k x) (lookupKV k y) else lookupKV k x) :
+    (∀ k, lookupKV k x' ≠ lookupKV k y → lookupKV k x ≠ lookupKV k y) ∧
+    (x' ≠ x → ∃ k0, lookupKV k0 x ≠ lookupKV k0 y ∧ lookupKV k0 x' = lookupKV k0 y) := by
+  refine ⟨recv_keep m x y x' P h, ?_⟩
+  intro hne
+  have : ¬ ∀ k, lookupKV k x' = lookupKV k x := fun hall => hne (store_ext x' x hx' hx hall)
+  obtain ⟨k0, hk0⟩ := not_forall.1 this
+  refine ⟨k0, ?_⟩
+  rw [h k0] at hk0 ⊢
+  by_cases hp : P k0 = true
+  · simp only [hp, if_true] at hk0 ⊢
+    obtain ⟨e1, e2⟩ := pullLk_of_ne m _ _ hk0
+    exact ⟨e2, e1⟩
+  · simp [hp] at hk0
+
+end Linear
 end Mst
